@@ -93,7 +93,12 @@ if good:
     dst = os.path.join("/verif/seeded", name)
     os.makedirs(dst, exist_ok=True)
     for fn in os.listdir(os.path.join(wt, "_seed")):
-        shutil.copy(os.path.join(wt, "_seed", fn), dst)
+        src = os.path.join(wt, "_seed", fn)
+        if os.path.isdir(src):
+            continue   # run logs of the seeding agent: not kept
+        if os.path.getsize(src) > 2_000_000 or fn.endswith(".log"):
+            continue
+        shutil.copy(src, dst)
     meta = json.load(open(os.path.join(dst, "meta.json")))
     meta["confirmed_by_lead"] = log
     meta["demo"] = {"file": os.path.basename(demo_src), "drop_into": tests_dir, "run": f"cargo test --offline -p {crate} --test {demo_name}"}
